@@ -4,6 +4,7 @@ import (
 	"bytes"
 	"encoding/json"
 	"fmt"
+	"io"
 
 	"github.com/zclconf/go-cty/cty"
 )
@@ -41,7 +42,9 @@ func ImpliedType(buf []byte) (cty.Type, error) {
 		return cty.NilType, err
 	}
 
-	if dec.More() {
+	// dec.More cannot be used here: it answers false when the next character
+	// is a closing bracket or brace, so "false}" and "[1]]" would be accepted.
+	if _, err := dec.Token(); err != io.EOF {
 		return cty.NilType, fmt.Errorf("extraneous data after JSON object")
 	}
 
